@@ -923,8 +923,28 @@ def _index(ex, st, c, args, dty):
     if isinstance(idx, FnRef) and idx.name.split("::")[-1] == "RangeFull":
         return rr
     if isinstance(idx, Adt) and idx.ty in ("RangeFrom", "Range", "RangeTo", "RangeFull", "RangeInclusive"):
+        base = deref(ex, st, r)
+        if isinstance(base, Str) and idx.ty in ("RangeFrom", "Range", "RangeTo"):
+            return _str_range(ex, st, base, idx)
         return _slice_range(ex, st, rr, items, idx)
     raise Unsupported(f"Index with {idx!r}")
+
+
+def _str_range(ex, st, base: Str, rng: Adt):
+    """&s[a..b] on a str: panics unless a <= b <= len and both ends are char boundaries (a byte that is not 0b10xxxxxx)"""
+    n = z3.Length(base.s)
+    if rng.ty == "RangeFrom":
+        lo, hi = ex.to_int_expr(rng.fields[0]), n
+    elif rng.ty == "Range":
+        lo, hi = ex.to_int_expr(rng.fields[0]), ex.to_int_expr(rng.fields[1])
+    else:
+        lo, hi = z3.IntVal(0), ex.to_int_expr(rng.fields[0])
+
+    def boundary(i):
+        return z3.Or(i == 0, i == n, z3.And(i > 0, i < n, (base.s[i] & 0xC0) != 0x80))
+    ok = z3.And(lo <= hi, hi <= n, boundary(lo), boundary(hi))
+    sub = Str(z3.SubSeq(base.s, lo, hi - lo))
+    return [(ok, Effect(lambda s_: ex.alloc(s_, sub, False))), (z3.Not(ok), Panic("byte index is out of bounds or not a char boundary of the string"))]
 
 
 def _slice_range(ex, st, rr, items, rng: Adt):
@@ -2119,7 +2139,51 @@ def _unwrap_or_default(ex, st, c, args, dty):
     v = args[0]
     if v.variant in ("Some", "Ok"):
         return v.fields[0]
+    t = (dty or "").strip()
+    it = INT_TYPES.get(t)
+    if it:
+        return ex.mk_int(0, it[0], it[1])
+    if t == "bool":
+        return BoolV(z3.BoolVal(False))
+    if re.match(r"^(std::vec::|alloc::vec::)?Vec<", t):
+        return VecV(Arr(()))
+    if t in ("String", "std::string::String", "alloc::string::String"):
+        return Str(z3.Empty(ByteSeq))
+    if t:
+        d = _default_of(ex, t)
+        if d is not None:
+            return d
+        # a project type with a hand-written Default impl: executed from MIR
+        return CallProject(f"<{t} as Default>::default", [])
     raise Unsupported("unwrap_or_default on the failing variant")
+
+
+def _default_of(ex, t: str, depth=0):
+    """value of #[derive(Default)] for a (non-generic) type, from its declaration; None when not derivable here"""
+    t = t.strip()
+    it = INT_TYPES.get(t)
+    if it:
+        return ex.mk_int(0, it[0], it[1])
+    if t == "bool":
+        return BoolV(z3.BoolVal(False))
+    if re.match(r"^(std::vec::|alloc::vec::)?Vec<", t):
+        return VecV(Arr(()))
+    if t.split("::")[-1] == "String":
+        return Str(z3.Empty(ByteSeq))
+    if re.match(r"^(std::option::|core::option::)?Option<", t):
+        return Adt("Option", "None", ())
+    if depth > 4:
+        return None
+    d = ex.decls.get(t.split("::")[-1].split("<")[0])
+    if d is None or d.kind != "struct" or getattr(d, "generics", None):
+        return None
+    fields = []
+    for _n, ft in d.fields:
+        v = _default_of(ex, ft, depth + 1)
+        if v is None:
+            return None
+        fields.append(v)
+    return Adt(d.name, None, tuple(fields))
 
 
 # ---------------------------------------------------------------------------------------------
